@@ -297,6 +297,30 @@ func run(c *vf.Ctx) {
 			if s := roundTrip(prev.CS, a.B, a.BS); s != "" {
 				x.Violate("multiproof|"+firstWord(s), s, path)
 			}
+			// merged variants: the same elements carried by ONE transaction (all of the block's v2 transactions merged, and
+			// every adjacent pair merged): several storage proofs / revisions / resolutions / inputs inside one
+			// transaction. The merged block need not be valid (signatures) - the codec must restore it all the same.
+			for _, mb := range mergedVariants(prev.CS, a.B) {
+				c.Count("merged_transaction_roundtrips", 1)
+				n := 0
+				for _, t := range mb.V2.Transactions {
+					k := 0
+					for _, r := range t.FileContractResolutions {
+						if _, ok := r.Resolution.(*types.V2StorageProof); ok {
+							k++
+						}
+					}
+					if k > n {
+						n = k
+					}
+				}
+				if n >= 2 {
+					c.Count("transactions_with_several_storage_proofs", 1)
+				}
+				if s := roundTrip(prev.CS, mb, a.BS); s != "" {
+					x.Violate("multiproof|merged|"+firstWord(s), "block whose v2 transactions were merged into one: "+s, path)
+				}
+			}
 			for _, t := range a.B.V2.Transactions {
 				seen := map[uint64]int{}
 				for _, r := range t.FileContractRevisions {
@@ -344,7 +368,65 @@ func run(c *vf.Ctx) {
 	vf.ParallelFor(len(pool), func(i int) { outlines(c, pool[i], pool[(i+1)%len(pool)]) })
 	c.Set("outline_blocks", len(pool))
 	c.Sample(accCase{M: 13, Groups: [][]int{{2}, {5, 12}}, Chain: true, Seed: c.Seed})
-	c.RequireFeature("multiproof_roundtrips", "chain_index_elements", "duplicate_leaf_blocks", "feature:v2_ephemeral_spend", "outline_complete_exact", "outline_missing_exact", "outline_codec_roundtrips", "outline_blocks_with_a_repeated_transaction")
+	c.RequireFeature("multiproof_roundtrips", "chain_index_elements", "duplicate_leaf_blocks", "feature:v2_ephemeral_spend", "outline_complete_exact", "outline_missing_exact", "outline_codec_roundtrips", "outline_blocks_with_a_repeated_transaction", "merged_transaction_roundtrips", "transactions_with_several_storage_proofs")
+}
+
+// mergeV2 concatenates the element lists of a and b into one transaction.
+func mergeV2(a, b types.V2Transaction) types.V2Transaction {
+	m := a
+	m.SiacoinInputs = append(append([]types.V2SiacoinInput(nil), a.SiacoinInputs...), b.SiacoinInputs...)
+	m.SiacoinOutputs = append(append([]types.SiacoinOutput(nil), a.SiacoinOutputs...), b.SiacoinOutputs...)
+	m.SiafundInputs = append(append([]types.V2SiafundInput(nil), a.SiafundInputs...), b.SiafundInputs...)
+	m.SiafundOutputs = append(append([]types.SiafundOutput(nil), a.SiafundOutputs...), b.SiafundOutputs...)
+	m.FileContracts = append(append([]types.V2FileContract(nil), a.FileContracts...), b.FileContracts...)
+	m.FileContractRevisions = append(append([]types.V2FileContractRevision(nil), a.FileContractRevisions...), b.FileContractRevisions...)
+	m.FileContractResolutions = append(append([]types.V2FileContractResolution(nil), a.FileContractResolutions...), b.FileContractResolutions...)
+	m.Attestations = append(append([]types.Attestation(nil), a.Attestations...), b.Attestations...)
+	m.ArbitraryData = append(append([]byte(nil), a.ArbitraryData...), b.ArbitraryData...)
+	if m.NewFoundationAddress == nil {
+		m.NewFoundationAddress = b.NewFoundationAddress
+	}
+	m.MinerFee = a.MinerFee.Add(b.MinerFee)
+	return m
+}
+
+// mergedVariants returns b with all its v2 transactions merged into one, and b with each adjacent pair merged
+// (commitment recomputed, re-sealed; validity is not required).
+func mergedVariants(cs consensus.State, b types.Block) (out []types.Block) {
+	if b.V2 == nil || len(b.V2.Transactions) < 2 || len(b.MinerPayouts) != 1 {
+		return nil
+	}
+	mk := func(txns []types.V2Transaction) {
+		nb := b
+		v2 := *b.V2
+		v2.Transactions = txns
+		nb.V2 = &v2
+		nb.V2.Commitment = cs.Commitment(nb.MinerPayouts[0].Address, nb.Transactions, nb.V2Transactions())
+		chain.Seal(cs, &nb)
+		out = append(out, nb)
+	}
+	ts := b.V2.Transactions
+	all := ts[0]
+	for _, t := range ts[1:] {
+		all = mergeV2(all, t)
+	}
+	mk([]types.V2Transaction{all})
+	if len(ts) > 2 {
+		for i := 0; i+1 < len(ts); i++ {
+			var txns []types.V2Transaction
+			for j := 0; j < len(ts); j++ {
+				switch {
+				case j == i:
+					txns = append(txns, mergeV2(ts[j], ts[j+1]))
+				case j == i+1:
+				default:
+					txns = append(txns, ts[j])
+				}
+			}
+			mk(txns)
+		}
+	}
+	return out
 }
 
 // repeatedVariant inserts the same data-only v2 transaction at the front and at the end of a v2 block, re-seals it and
@@ -591,6 +673,11 @@ func replay(c *vf.Ctx, raw json.RawMessage) {
 		a := w.Hist[len(w.Hist)-1]
 		if s := roundTrip(a.PrevCS, a.B, a.BS); s != "" {
 			c.Violate("C18|multiproof|"+firstWord(s), s, raw)
+		}
+		for _, mb := range mergedVariants(a.PrevCS, a.B) {
+			if s := roundTrip(a.PrevCS, mb, a.BS); s != "" {
+				c.Violate("C18|multiproof|merged|"+firstWord(s), "block whose v2 transactions were merged into one: "+s, raw)
+			}
 		}
 		outlines(c, poolBlock{a.PrevCS, a.B, nil, w.Spec.Name}, poolBlock{a.PrevCS, types.Block{V2: &types.V2BlockData{}}, nil, ""})
 	}
